@@ -52,6 +52,7 @@ __CPROVER_ensures(VP_NO_LOCK_HELD && XP->aio_recv.a_msg == NULL)
 __CPROVER_ensures((X_DELIVERED && g_pipe_close_calls == OLD(g_pipe_close_calls) && g_pipe_recv_calls == OLD(g_pipe_recv_calls) && !__CPROVER_was_freed(OLD(XM)))
     || (g_rr.put_calls == OLD(g_rr.put_calls) && X_DISCONN && g_pipe_recv_calls == OLD(g_pipe_recv_calls) && __CPROVER_was_freed(OLD(XM)))
     || (g_rr.put_calls == OLD(g_rr.put_calls) && g_pipe_close_calls == OLD(g_pipe_close_calls) && X_DROPPED && __CPROVER_was_freed(OLD(XM))))
+#ifndef RR_SKIP_BYTES
 /* disconnected ==> GARBAGE: fewer than ttl complete words and none of them is a request id */
 __CPROVER_ensures(X_DISCONN ==> (g_pipe_close_last == XP->pipe && (XOLDLEN >> 2) + XR_MUT2V < (size_t) XS->ttl.v && RR_NO_END_BELOW((XOLDLEN >> 2))))
 /* dropped ==> TOOMANY: the first ttl words exist and none is a request id; NOT disconnected, receive re-armed */
@@ -65,6 +66,7 @@ __CPROVER_ensures(X_DELIVERED ==> (X_HL >= 8 && (X_HL & 3) == 0 && X_HL <= MSG_H
 __CPROVER_ensures((X_DELIVERED && g_k < X_HL - 4) ==> HDR(OLD(XM))[4 + g_k] == g_b)
 __CPROVER_ensures(X_DELIVERED ==> (RR_NO_END_BELOW((X_HL >> 2) - 2) && (g_k == X_HL - 8 ==> RR_HB(g_b))))
 __CPROVER_ensures((X_DELIVERED && g_k >= X_HL - 4 && g_k < XOLDLEN) ==> OLD(XM)->m_body.ch_ptr[g_k - (X_HL - 4)] == g_b)
+#endif
 ;
 #endif
 
